@@ -92,7 +92,7 @@ class Decision:
         cmd = [sys.executable, os.path.join(ROOT, "replay", script), repo, ",".join(sections)]
         t0 = time.time()
         try:
-            out = subprocess.run(cmd, capture_output=True, text=True, timeout=timeout)
+            out = subprocess.run(cmd, capture_output=True, text=True, timeout=timeout, env=dict(os.environ, VERIF_TIER=self.tier))
             data = json.loads(out.stdout.strip().splitlines()[-1])
             fails = data["failures"]
             rec = {"name": f"bounded:{script}[{','.join(sections)}]", "ok": not fails, "cases": data["cases"], "bound": bound,
